@@ -217,6 +217,10 @@ func c13Case(w *rt.W, s uint64) {
 			return "refused"
 		}})
 	}
+	for k := 0; k < 3; k++ { // the other packages at work in between
+		k := k
+		calls = append(calls, rcall{"another package formats or refuses something", "done", func() string { foreignActivity(int(s%997)+4*k, "size"); return "done" }})
+	}
 	h := rt.HashU(s, 13)
 	for i := len(calls) - 1; i > 0; i-- {
 		j := int(h % uint64(i+1))
